@@ -34,7 +34,9 @@ DEPTH = {"quick": 5, "thorough": 5}
 
 
 def plan(tier, seed):
-    cfgs = [{"depth": DEPTH[tier], "universe": "full", "procs": 16, "label": "full universe", "pid": PID, "mode": MODE}]
+    cfgs = [{"depth": DEPTH[tier], "universe": "full", "procs": 16, "label": "full universe", "pid": PID, "mode": MODE},
+            # the same alphabet over a leaf and an inner class that is falsy in a boolean context (one step shallower)
+            {"depth": DEPTH[tier] - 1, "universe": "falsy", "procs": 16, "label": "falsy inner class", "pid": PID, "mode": MODE}]
     if tier == "thorough":
         cfgs.append({"depth": DEPTH[tier] + 1, "universe": "small", "procs": 16, "label": "2-class universe, one more step", "pid": PID, "mode": MODE,
                      "max_states": 400000})
